@@ -464,3 +464,94 @@ def search_factorize(nby, fastpath):
         return None
 
     return search
+
+
+# ---------------------------------------------------------------------------------------------
+# _convert_expected_groups_to_index(expected_groups, isbin, sort)   (C16.order, C05.order, C07.edges)
+# ---------------------------------------------------------------------------------------------
+
+
+class LabelsRec(Record):
+    """A pandas.Index / IntervalIndex / plain array of requested labels seen as its label sequence.
+    sort_values / np.sort (ASSUMED): an ascending permutation of the labels."""
+
+    def __init__(self, kind, labels, sorted_from=None):
+        super().__init__(kind, labels=labels)
+        self.labels = labels
+        self.sorted_from = sorted_from
+
+    def pyvc_len(self):
+        return self.labels.length
+
+    def pyvc_getattr(self, ex, st, attr, node, prims):
+        from ..pyvc.prims import Method
+
+        return Method(self, attr)
+
+    def sorted_copy(self, ex, st, node, kind=None):
+        from ..pyvc.prims import stable_argsort
+
+        perm = stable_argsort(ex, st, self.labels, {}, node)
+        _, p, inv, _ = perm.perm_of
+        out = SSeq(self.labels.length, lambda t: self.labels.at(p(t)), kind="array", name="sorted_labels")
+        r = LabelsRec(kind or self.kind, out, sorted_from=(self, p, inv))
+        return r
+
+    def pyvc_method(self, ex, st, attr, args, kwargs, node, prims):
+        if attr == "sort_values":
+            return self.sorted_copy(ex, st, node)
+        raise NotImplementedError(attr)
+
+
+def convert_models(prims):
+    prims.register("numpy.sort", lambda ex, st, a, k, n: a[0].sorted_copy(ex, st, n) if isinstance(a[0], LabelsRec) else (_ for _ in ()).throw(NotImplementedError("np.sort of a non-label value")))
+    prims.register("pandas.IntervalIndex.from_breaks", lambda ex, st, a, k, n: LabelsRec("IntervalIndex", a[0].labels, sorted_from=("breaks_of", a[0])))
+
+
+def convert_contract(kind, isbin, sort):
+    """kind of the (single) entry: 'Index' | 'IntervalIndex' | 'ndarray' | 'None'"""
+
+    def params(ex):
+        entry = None if kind == "None" else LabelsRec(kind, sym_seq("requested"))
+        return {"expected_groups": (entry,), "isbin": (isbin,), "sort": sort}
+
+    def requires(ex, env):
+        e = env["expected_groups"][0]
+        return [] if e is None else [e.labels.length >= 0]
+
+    def ensures(ex, env, res):
+        e = env["__entry__"]["expected_groups"][0]
+        cl = [("one_entry_per_grouper", z3.BoolVal(isinstance(res, tuple) and len(res) == 1))]
+        if not (isinstance(res, tuple) and len(res) == 1):
+            return cl
+        out = res[0]
+        if kind == "None":
+            return cl + [("nothing_requested_stays_none", z3.BoolVal(out is None))]
+        cl.append(("an_index_comes_back", z3.BoolVal(isinstance(out, LabelsRec))))
+        if not isinstance(out, LabelsRec):
+            return cl
+        i = fresh("i")
+        n = e.labels.length
+        becomes_bins = kind == "IntervalIndex" or isbin  # edges (array or Index) requested as bins become contiguous intervals
+        cl.append(("bins_iff_requested_as_bins", z3.BoolVal((out.kind == "IntervalIndex") == becomes_bins)))
+        cl.append(("plain_labels_become_an_index", z3.BoolVal(becomes_bins or out.kind == "Index")))
+        cl.append(("no_label_added_or_lost", out.labels.length == n))
+        must_sort = sort and not (isbin and kind != "IntervalIndex")  # edges given as breaks are taken in the given order
+        if must_sort:
+            cl.append(("ascending_when_sort", forall(i, z3.Implies(in_range(i, 0, n - 1), out.labels.at(i) <= out.labels.at(i + 1)))))
+            sf = out.sorted_from
+            ok = isinstance(sf, tuple) and len(sf) == 3 and sf[0] is e
+            cl.append(("sorted_labels_are_a_permutation_of_the_requested_ones", z3.BoolVal(ok)))
+            if ok:
+                _, p, inv = sf
+                cl.append(("permutation_is_a_bijection", forall(i, z3.Implies(in_range(i, 0, n), z3.And(in_range(p(i), 0, n), inv(p(i)) == i, out.labels.at(i) == e.labels.at(p(i)))))))
+        else:
+            cl.append(("requested_order_kept", forall(i, z3.Implies(in_range(i, 0, n), out.labels.at(i) == e.labels.at(i)))))
+        return cl
+
+    return Contract(qualname="_convert_expected_groups_to_index", file="flox/core.py", prefix=f"C16.convert_expected.{kind}.{'bin' if isbin else 'cat'}.{'sort' if sort else 'nosort'}", params=params, requires=requires,
+                    ensures=ensures, serves=("C16", "C05", "C07"), assumed=("Index.sort_values / np.sort: ascending permutation", "IntervalIndex.from_breaks keeps the edges in the given order", "pandas.Index constructor keeps the order"))
+
+
+def all_convert():
+    return [convert_contract(k, b, s) for k in ("Index", "IntervalIndex", "ndarray", "None") for b in (False, True) for s in (True, False)]
